@@ -14,7 +14,9 @@ Objects (Model/AstLadder.lean, Model/AstUnary.lean):
   `astOf L cpp ts`    model of prepareTernaryOpForAST (twice) + createAst (compileExpression) on a token list
 
 All theorems are for every tree of any size and nesting; `need e ≤ L.maxDepth` is the AST_MAX_DEPTH guard (deeper
-inputs are rejected by cppcheck, so the property says nothing about them).
+inputs are rejected by cppcheck, so the property says nothing about them).  `declFine L e` = `L.declVarGuard || e.declOK`:
+true for every tree once skipDecl has the early return for variables (`declFine_extracted`), the `declOK` restriction
+otherwise (`createAst_follows_grammar_prefix_partial` / `_prefix_counterexample`: the code before fix 1fbcd63).
 -/
 namespace Cppcheck.AstLadder
 open PExpr
@@ -26,44 +28,63 @@ theorem extracted_table_is_C : tableEq Gen.AstLadder.astLadder.toTable isoTable 
 /-- the extracted functions really form a ladder (each level's callee is the next level) and the table is well-formed -/
 theorem extracted_ladder_wf : Gen.AstLadder.astLadder.chain = true ∧ Gen.AstLadder.astLadder.WF = true := by decide
 
-/-- MAIN THEOREM.  For every well-formed table, every parse tree `e` of the expression grammar over it (any
-parenthesisation the grammar admits, any size), `print e` followed by `)`, `]`, `;` or nothing is turned by
-prepareTernaryOpForAST + createAst into exactly one tree: `toAst e`, each operator with the operands the grammar
-gives it.  Hypotheses: the depth guard, and `declOK`: no `(` is followed by something `skipDecl` takes for a
-declaration (this is the `_partial` form: `createAst_follows_grammar_counterexample` shows the hypothesis cannot be dropped, finding F7a). -/
-theorem createAst_follows_grammar {L : Ladder} (hL : L.WF = true) (cpp : Bool) (e : PExpr)
+/-- skipDecl of the working tree returns at once when the name behind `(` is a variable (commit 1fbcd63, extracted by
+the translator from the body of skipDecl on every run) -/
+theorem extracted_skipDecl_guard : Gen.AstLadder.astLadder.declVarGuard = true := by decide
+
+/-- MAIN THEOREM.  For every well-formed table whose skipDecl has the early return for variables, every parse tree `e` of
+the expression grammar over it (any parenthesisation the grammar admits, any size): `print e` followed by `)`, `]`, `;`
+or nothing is turned by prepareTernaryOpForAST + createAst into exactly one tree, `toAst e`, each operator with the
+operands the grammar gives it.  The only hypothesis besides "e is a tree of the grammar" is the depth guard
+(AST_MAX_DEPTH: deeper input is rejected by cppcheck). -/
+theorem createAst_follows_grammar {L : Ladder} (hL : L.WF = true) (hcode : L.declVarGuard = true) (cpp : Bool) (e : PExpr)
+    (hg : Gram L false L.levels e = true) (hn : e.need ≤ L.maxDepth)
+    (rest : List Tok) (hr : endOK rest = true) (ha : rest.all Tok.inAlphabet = true) (hq : ∀ t ∈ rest, t ≠ Tok.op ['?']) :
+    astOf L cpp (e.print ++ rest) = .ok ⟨(prepE e).print.reverse, rest, [⟨(prepE e).rootOff, e.toAst⟩], 0⟩ :=
+  astOf_print hL cpp e hg (by simp [declFine, hcode]) hn rest hr ha hq
+
+/-- the main theorem for the table of the working tree (all side conditions on the table decided) -/
+theorem createAst_follows_grammar_extracted (cpp : Bool) (e : PExpr)
+    (hg : Gram Gen.AstLadder.astLadder false Gen.AstLadder.astLadder.levels e = true)
+    (hn : e.need ≤ Gen.AstLadder.astLadder.maxDepth) :
+    astOf Gen.AstLadder.astLadder cpp (e.print ++ [Tok.op [';']]) =
+      .ok ⟨(prepE e).print.reverse, [Tok.op [';']], [⟨(prepE e).rootOff, e.toAst⟩], 0⟩ :=
+  createAst_follows_grammar extracted_ladder_wf.2 extracted_skipDecl_guard cpp e hg hn _ rfl rfl (by simp)
+
+/-- the code BEFORE fix 1fbcd63 (`Ladder.preFix`: skipDecl without the early return): the statement only holds with the
+extra hypothesis `declOK` (no `(` is followed by something skipDecl takes for a declaration: `( a * b =`, `( a * b (`) -/
+theorem createAst_follows_grammar_prefix_partial {L : Ladder} (hL : L.WF = true) (cpp : Bool) (e : PExpr)
     (hg : Gram L false L.levels e = true) (hd : (prepE e).declOK = true) (hn : e.need ≤ L.maxDepth)
     (rest : List Tok) (hr : endOK rest = true) (ha : rest.all Tok.inAlphabet = true) (hq : ∀ t ∈ rest, t ≠ Tok.op ['?']) :
     astOf L cpp (e.print ++ rest) = .ok ⟨(prepE e).print.reverse, rest, [⟨(prepE e).rootOff, e.toAst⟩], 0⟩ :=
-  astOf_print hL cpp e hg hd hn rest hr ha hq
+  astOf_print hL cpp e hg (by simp [declFine, hd]) hn rest hr ha hq
 
-/-- the full-strength statement (no `declOK`) is FALSE of the code as modelled: for `( a * b = c ) ;` skipDecl
-(lib/tokenlist.cpp) jumps over `a *` and the tree is `=`(b, c) (finding F7a; the real-code witnesses are in
-corpus/C07).  `hcode`: the working tree does not have the early return `tok->varId() != 0` in skipDecl proposed in
-/verif/proposed/C07-skipdecl-variable.diff (extracted by the translator; `unpatched_skipDecl` below decides it). -/
-theorem createAst_follows_grammar_counterexample (hcode : Gen.AstLadder.astLadder.declVarGuard = false) :
-    ¬ ∀ (e : PExpr), Gram Gen.AstLadder.astLadder false Gen.AstLadder.astLadder.levels e = true →
-        e.need ≤ Gen.AstLadder.astLadder.maxDepth →
-        astOf Gen.AstLadder.astLadder true (e.print ++ [Tok.op [';']]) =
+/-- … and `declOK` could not be dropped there: with the pre-fix skipDecl, `( a * b = c ) ;` (a tree of the grammar, in
+C++ `(a * b) = c`) lost `a *` and came out as `=`(b, c) (finding F7a, fixed by 1fbcd63; the real-code witnesses stay in
+corpus/C07 and now pass) -/
+theorem createAst_follows_grammar_prefix_counterexample :
+    ¬ ∀ (e : PExpr), Gram Gen.AstLadder.astLadder.preFix false Gen.AstLadder.astLadder.preFix.levels e = true →
+        e.need ≤ Gen.AstLadder.astLadder.preFix.maxDepth →
+        astOf Gen.AstLadder.astLadder.preFix true (e.print ++ [Tok.op [';']]) =
           .ok ⟨(prepE e).print.reverse, [Tok.op [';']], [⟨(prepE e).rootOff, e.toAst⟩], 0⟩ := by
   intro h
   have h1 := h declWitness (by decide) (by decide)
-  rw [declWitness_parse (by decide) true (by decide) (by decide) hcode] at h1
+  rw [declWitness_parse (L := Gen.AstLadder.astLadder.preFix) (by decide) true (by decide) (by decide) rfl] at h1
   have h2 := congrArg (fun r => match r with | .ok st => st.stk.map Entry.ast | .error _ => []) h1
   revert h2
   decide
 
-/-- the same for the table of the working tree -/
-theorem createAst_follows_grammar_extracted (cpp : Bool) (e : PExpr)
-    (hg : Gram Gen.AstLadder.astLadder false Gen.AstLadder.astLadder.levels e = true) (hd : (prepE e).declOK = true)
-    (hn : e.need ≤ Gen.AstLadder.astLadder.maxDepth) :
-    astOf Gen.AstLadder.astLadder cpp (e.print ++ [Tok.op [';']]) =
-      .ok ⟨(prepE e).print.reverse, [Tok.op [';']], [⟨(prepE e).rootOff, e.toAst⟩], 0⟩ :=
-  astOf_print extracted_ladder_wf.2 cpp e hg hd hn _ rfl rfl (by simp)
+/-- the fixed code handles that witness: the hypotheses of the main theorem hold for it although `declOK` fails -/
+example : Gram Gen.AstLadder.astLadder false Gen.AstLadder.astLadder.levels declWitness = true ∧
+    (prepE declWitness).declOK = false ∧ declWitness.need ≤ Gen.AstLadder.astLadder.maxDepth := by decide
+
+/-- for the table of the working tree the skipDecl side condition `declFine` of the corollaries below is always met -/
+theorem declFine_extracted (e : PExpr) : declFine Gen.AstLadder.astLadder e = true := by
+  simp [declFine, extracted_skipDecl_guard]
 
 /-- round trip: printing a parenthesis-free tree with the fewest parentheses and parsing it back gives the tree -/
 theorem ladder_roundtrip {L : Ladder} (hL : L.WF = true) (cpp : Bool) (e : PExpr) (he : over L e = true)
-    (hd : (prepE (minParen L L.levels e)).declOK = true) (hn : e.need ≤ L.maxDepth) :
+    (hd : declFine L (prepE (minParen L L.levels e)) = true) (hn : e.need ≤ L.maxDepth) :
     ∃ st, astOf L cpp ((minParen L L.levels e).print ++ [Tok.op [';']]) = .ok st ∧
       st.inp = [Tok.op [';']] ∧ st.stk.map Entry.ast = [e.toAst] := by
   have hg := gram_minParen hL e he L.levels (Suffix.refl L)
@@ -76,7 +97,7 @@ theorem ladder_roundtrip {L : Ladder} (hL : L.WF = true) (cpp : Bool) (e : PExpr
 /-- redundant parentheses never change the tree: two grammatical strings that differ only in parentheses give the
 same tree, namely that of the parenthesis-free tree -/
 theorem ladder_respects_parens {L : Ladder} (hL : L.WF = true) (cpp : Bool) (e : PExpr)
-    (hg : Gram L false L.levels e = true) (hd : (prepE e).declOK = true) (hn : e.need ≤ L.maxDepth) :
+    (hg : Gram L false L.levels e = true) (hd : declFine L (prepE e) = true) (hn : e.need ≤ L.maxDepth) :
     ∃ st, astOf L cpp (e.print ++ [Tok.op [';']]) = .ok st ∧ st.stk.map Entry.ast = [(strip e).toAst] := by
   refine ⟨_, astOf_print hL cpp e hg hd hn _ rfl rfl (by simp), ?_⟩
   simp [toAst_strip]
@@ -86,7 +107,7 @@ parentheses around the middle operand (whatever it contains: commas, assignments
 `?`(c, `:`(t, e)) -/
 theorem ternary_middle_as_parenthesised {L : Ladder} (hL : L.WF = true) (cpp : Bool) (c t e : PExpr)
     (hg : Gram L false L.levels (tern c t e) = true)
-    (hd1 : (prepE (tern c t e)).declOK = true) (hd2 : (prepE (tern c (paren t) e)).declOK = true)
+    (hd1 : declFine L (prepE (tern c t e)) = true) (hd2 : declFine L (prepE (tern c (paren t) e)) = true)
     (hn : (tern c t e).need ≤ L.maxDepth) :
     ∃ st1 st2, astOf L cpp ((tern c t e).print ++ [Tok.op [';']]) = .ok st1 ∧
       astOf L cpp ((tern c (paren t) e).print ++ [Tok.op [';']]) = .ok st2 ∧
